@@ -48,3 +48,403 @@ Proof.
     + intro Hc. apply H3. now right.
     + exists n, ns, f, fs. auto.
 Qed.
+
+(* ---- structural events of the pieces of a trace ---- *)
+Lemma structural_app : forall a b, structural (a ++ b) = structural a ++ structural b.
+Proof. intros. unfold structural. apply filter_app. Qed.
+
+Lemma structural_acts_non : forall F k b, is_struct k = false -> structural (acts F k b) = [].
+Proof.
+  intros F k b H. unfold acts, structural. induction (seq 0 (cnt F k b)) as [|i l IH]; simpl; auto.
+  rewrite H. exact IH.
+Qed.
+
+Lemma structural_acts_struct : forall F k b, is_struct k = true -> structural (acts F k b) = acts F k b.
+Proof.
+  intros F k b H. unfold acts, structural. induction (seq 0 (cnt F k b)) as [|i l IH]; simpl; auto.
+  rewrite H. now f_equal.
+Qed.
+
+Lemma structural_flat_id : forall (f : nat -> list ev) l,
+  (forall b, structural (f b) = f b) -> structural (flat_map f l) = flat_map f l.
+Proof. intros f l H. induction l as [|b l IH]; simpl; auto. rewrite structural_app, H, IH. reflexivity. Qed.
+
+Lemma structural_flat_nil : forall (f : nat -> list ev) l,
+  (forall b, structural (f b) = []) -> structural (flat_map f l) = [].
+Proof. intros f l H. induction l as [|b l IH]; simpl; auto. rewrite structural_app, H, IH. reflexivity. Qed.
+
+Lemma structural_exdo : forall F l, structural (exdo F l) = exdo F l.
+Proof. intros. apply structural_flat_id. intro. now apply structural_acts_struct. Qed.
+Lemma structural_rexdo : forall F l, structural (rexdo F l) = rexdo F l.
+Proof. intros. apply structural_flat_id. intro. now apply structural_acts_struct. Qed.
+Lemma structural_rendo : forall F l, structural (rendo F l) = rendo F l.
+Proof.
+  intros. apply structural_flat_id. intro. unfold box_rendo.
+  rewrite structural_app, !structural_acts_struct; auto.
+Qed.
+Lemma structural_endo : forall F l, structural (endo F l) = endo F l.
+Proof.
+  intros. apply structural_flat_id. intro. unfold box_endo.
+  rewrite structural_app, !structural_acts_struct; auto.
+Qed.
+Lemma structural_redo : forall F l, structural (redo F l) = [].
+Proof. intros. apply structural_flat_nil. intro. now apply structural_acts_non. Qed.
+
+Lemma structural_box_predo_from : forall fs b is, structural (fst (box_predo_from fs b is)) = [].
+Proof.
+  intros fs b is. induction is as [|i is IH]; simpl; auto.
+  destruct (fails fs b i); simpl; auto.
+  destruct (box_predo_from fs b is) as [t r]. simpl in *. exact IH.
+Qed.
+
+Lemma structural_predo : forall F fs l, structural (fst (predo F fs l)) = [].
+Proof.
+  intros F fs l. induction l as [|b l IH]; simpl; auto.
+  pose proof (structural_box_predo_from fs b (seq 0 (cnt F KPre b))) as Hb.
+  unfold box_predo. destruct (box_predo_from fs b (seq 0 (cnt F KPre b))) as [t ok]. simpl in Hb.
+  destruct ok; simpl; auto.
+  destruct (predo F fs l) as [t' ok']. simpl in *. rewrite structural_app, Hb, IH. reflexivity.
+Qed.
+
+(* ---- the specification of a pass: the goacts are tried top-down, in
+   declaration order; the first destination whose arrival boxes pass their
+   preconditions is taken ---- *)
+Definition fired (gos : goset) (b k : nat) : list nat :=
+  match go_dest gos b k with Some d => [d] | None => [] end.
+Definition box_candidates (F : forest) (gos : goset) (b : nat) : list nat :=
+  flat_map (fired gos b) (seq 0 (cnt F KGo b)).
+Definition candidates (F : forest) (gos : goset) (near : nat) : list nat :=
+  flat_map (box_candidates F gos) (pile F near).
+Definition admissible (F : forest) (fs : failset) (near d : nat) : bool :=
+  match exen_split d (pile F near) (pile F d) with
+  | Some (_, _, fo) => snd (predo F fs fo)
+  | None => false
+  end.
+Definition chosen (F : forest) (fs : failset) (gos : goset) (near : nat) : option nat :=
+  find (admissible F fs near) (candidates F gos near).
+
+Lemma find_app : forall {A} (f : A -> bool) l1 l2,
+  find f (l1 ++ l2) = match find f l1 with Some x => Some x | None => find f l2 end.
+Proof. intros A f l1 l2. induction l1 as [|a l1 IH]; simpl; auto. destruct (f a); auto. Qed.
+
+(* the loop state before any transition was accepted *)
+Definition quiet (near : nat) (s : pst) : Prop :=
+  p_endos s = [] /\ p_rendos s = [] /\ p_box s = near /\ p_transit s = false /\ p_err s = false.
+
+(* what a loop did, relative to the candidate list it walked *)
+Definition loop_post (F : forest) (fs : failset) (near : nat) (cands : list nat) (s s' : pst) : Prop :=
+  (p_err s' = true /\ exists d, In d cands /\ exen_split d (pile F near) (pile F d) = None) \/
+  match find (admissible F fs near) cands with
+  | Some far =>
+    exists c no fo scan,
+      exen_split far (pile F near) (pile F far) = Some (c, no, fo) /\
+      p_transit s' = true /\ p_err s' = false /\ p_box s' = far /\
+      p_endos s' = fo /\ p_rendos s' = c /\ structural scan = [] /\
+      p_tr s' = p_tr s ++ scan ++ exdo F (rev no) ++ rexdo F (rev c)
+  | None =>
+    quiet near s' /\ exists scan, structural scan = [] /\ p_tr s' = p_tr s ++ scan
+  end.
+
+Ltac tr_fin :=
+  repeat split; auto;
+  try (rewrite ?structural_app; repeat match goal with H : structural _ = [] |- _ => rewrite H end; reflexivity);
+  try (repeat match goal with H : p_tr _ = _ |- _ => rewrite H end; cbn [emit p_tr]; rewrite <- ?app_assoc; reflexivity).
+
+Lemma go_loop_post : forall F fs gos near b ks s,
+  quiet near s ->
+  loop_post F fs near (flat_map (fired gos b) ks) s (go_loop F fs gos b ks s).
+Proof.
+  intros F fs gos near b ks. induction ks as [|k ks IH]; intros s Hq.
+  - simpl. right. split; auto. exists []. rewrite app_nil_r. auto.
+  - cbn [go_loop flat_map]. unfold fired at 1. destruct (go_dest gos b k) as [dest|] eqn:Eg.
+    + (* the goact returned a box *)
+      destruct Hq as (Q1 & Q2 & Q3 & Q4 & Q5).
+      cbn [emit p_box p_tr p_endos p_rendos p_transit p_err].
+      unfold exen. rewrite Q3.
+      unfold loop_post. simpl app. cbn [find].
+      unfold admissible at 1.
+      destruct (exen_split dest (pile F near) (pile F dest)) as [[[c no] fo]|] eqn:Es.
+      * cbn [endos exdos rexdos rendos].
+        pose proof (structural_predo F fs fo) as Hp.
+        destruct (predo F fs fo) as [t ok]. cbn [fst snd] in *.
+        destruct ok.
+        -- right. exists c, no, fo, ([Ev KGo b k] ++ t).
+           cbn [p_transit p_err p_box p_endos p_rendos p_tr]. tr_fin.
+        -- match goal with |- context [go_loop _ _ _ _ _ ?s1] =>
+             assert (Hq1 : quiet near s1) by (repeat split; auto);
+             pose proof (IH s1 Hq1) as IH1 end.
+           unfold loop_post in IH1. destruct IH1 as [(IE & d & Hd & Hx)|IH1];
+             [left; split; auto; exists d; split; auto; now right|].
+           right. cbn [p_tr] in IH1.
+           destruct (find (admissible F fs near) (flat_map (fired gos b) ks)) as [far|].
+           ++ destruct IH1 as (c' & no' & fo' & scan & H1 & H2 & H3 & H4 & H5 & H6 & H7 & H8).
+              exists c', no', fo', ([Ev KGo b k] ++ t ++ scan). tr_fin.
+           ++ destruct IH1 as (Hq' & scan & H7 & H8). split; auto.
+              exists ([Ev KGo b k] ++ t ++ scan). tr_fin.
+      * left. split; [reflexivity|]. exists dest. split; [now left|exact Es].
+    + (* the goact returned None *)
+      simpl app.
+      assert (Hq1 : quiet near (emit s [Ev KGo b k])).
+      { destruct Hq as (Q1 & Q2 & Q3 & Q4 & Q5). repeat split; auto. }
+      pose proof (IH _ Hq1) as IH1.
+      unfold loop_post in *. destruct IH1 as [IH1|IH1]; [now left|].
+      right. cbn [emit p_tr] in IH1.
+      destruct (find (admissible F fs near) (flat_map (fired gos b) ks)) as [far|].
+      * destruct IH1 as (c' & no' & fo' & scan & H1 & H2 & H3 & H4 & H5 & H6 & H7 & H8).
+        exists c', no', fo', ([Ev KGo b k] ++ scan). tr_fin.
+      * destruct IH1 as (Hq' & scan & H7 & H8). split; auto.
+        exists ([Ev KGo b k] ++ scan). tr_fin.
+Qed.
+
+Lemma structural_afdo : forall F b, structural (box_afdo F b) = [].
+Proof. intros. now apply structural_acts_non. Qed.
+
+Lemma box_loop_post : forall F fs gos near bs s,
+  quiet near s ->
+  loop_post F fs near (flat_map (box_candidates F gos) bs) s (box_loop F fs gos bs s).
+Proof.
+  intros F fs gos near bs. induction bs as [|b bs IH]; intros s Hq.
+  - simpl. right. split; auto. exists []. rewrite app_nil_r. auto.
+  - cbn [box_loop flat_map].
+    assert (Hq0 : quiet near (emit s (box_afdo F b))).
+    { destruct Hq as (Q1 & Q2 & Q3 & Q4 & Q5). repeat split; auto. }
+    pose proof (go_loop_post F fs gos near b (seq 0 (cnt F KGo b)) _ Hq0) as G.
+    pose proof (structural_afdo F b) as Haf.
+    fold (box_candidates F gos b) in G.
+    set (s1 := go_loop F fs gos b (seq 0 (cnt F KGo b)) (emit s (box_afdo F b))) in *.
+    unfold loop_post in *. rewrite find_app.
+    destruct G as [(G & d & Hd & Hx)|G].
+    + rewrite G, orb_true_r. left. split; auto. exists d. split; auto. apply in_or_app. now left.
+    + destruct (find (admissible F fs near) (box_candidates F gos b)) as [far|].
+      * destruct G as (c & no & fo & scan & H1 & H2 & H3 & H4 & H5 & H6 & H7 & H8).
+        rewrite H2. cbn [orb]. right.
+        exists c, no, fo, (box_afdo F b ++ scan). cbn [emit p_tr] in H8. tr_fin.
+      * destruct G as (Hq1 & scan & H7 & H8).
+        assert (Hc : p_transit s1 || p_err s1 = false).
+        { destruct Hq1 as (_ & _ & _ & Q4 & Q5). now rewrite Q4, Q5. }
+        rewrite Hc. cbn [emit p_tr] in H8.
+        destruct (IH s1 Hq1) as [(IE & d & Hd & Hx)|IH1];
+          [left; split; auto; exists d; split; auto; apply in_or_app; now right|]. right.
+        destruct (find (admissible F fs near) (flat_map (box_candidates F gos) bs)) as [far|].
+        -- destruct IH1 as (c & no & fo & scan' & H1 & H2 & H3 & H4 & H5 & H6 & H7' & H8').
+           exists c, no, fo, (box_afdo F b ++ scan ++ scan'). tr_fin.
+        -- destruct IH1 as (Hq2 & scan' & H7' & H8'). split; auto.
+           exists (box_afdo F b ++ scan ++ scan'). tr_fin.
+Qed.
+
+(* ---- the pass as a whole ---- *)
+Theorem pass_spec : forall F fs gos near st t,
+  pass F fs gos near = (st, t) ->
+  (st = Crashed /\ exists d, In d (candidates F gos near) /\ exen_split d (pile F near) (pile F d) = None) \/
+  match chosen F fs gos near with
+  | Some far =>
+    exists c no fo scan,
+      exen_split far (pile F near) (pile F far) = Some (c, no, fo) /\
+      st = Active far /\ structural scan = [] /\
+      t = scan ++ exdo F (rev no) ++ rexdo F (rev c) ++ rendo F c ++ endo F fo ++ redo F (pile F far)
+  | None =>
+    st = Active near /\ exists scan, structural scan = [] /\ t = scan ++ redo F (pile F near)
+  end.
+Proof.
+  intros F fs gos near st t Hp. unfold pass in Hp.
+  set (s0 := {| p_tr := []; p_endos := []; p_rendos := []; p_box := near; p_transit := false; p_err := false |}) in *.
+  assert (Hq : quiet near s0) by (repeat split; auto).
+  pose proof (box_loop_post F fs gos near (pile F near) s0 Hq) as L.
+  fold (candidates F gos near) in L.
+  set (s := box_loop F fs gos (pile F near) s0) in *.
+  unfold loop_post in L. unfold chosen.
+  destruct L as [(L & Hd)|L].
+  - rewrite L in Hp. inversion Hp; subst. left. split; auto.
+  - right. destruct (find (admissible F fs near) (candidates F gos near)) as [far|].
+    + destruct L as (c & no & fo & scan & H1 & H2 & H3 & H4 & H5 & H6 & H7 & H8).
+      rewrite H3 in Hp. inversion Hp; subst st t; clear Hp.
+      exists c, no, fo, scan. rewrite H4, H5, H6, H8. cbn [s0 p_tr app].
+      repeat split; auto. rewrite <- !app_assoc. reflexivity.
+    + destruct L as ((Q1 & Q2 & Q3 & Q4 & Q5) & scan & H7 & H8).
+      rewrite Q5 in Hp. inversion Hp; subst st t; clear Hp.
+      rewrite Q1, Q2, Q3, H8. split; auto. exists scan. split; auto.
+Qed.
+
+(* the exit / re-exit / re-enter / enter actions of a pass are exactly those
+   of the transition taken (none when none is taken) *)
+Definition nested_order (F : forest) (c no fo : list nat) : list ev :=
+  exdo F (rev no) ++ rexdo F (rev c) ++ rendo F c ++ endo F fo.
+
+Lemma structural_nested : forall F c no fo, structural (nested_order F c no fo) = nested_order F c no fo.
+Proof.
+  intros. unfold nested_order.
+  rewrite !structural_app, structural_exdo, structural_rexdo, structural_rendo, structural_endo. reflexivity.
+Qed.
+
+Theorem pass_structural : forall F fs gos near st t,
+  pass F fs gos near = (st, t) -> st <> Crashed ->
+  match chosen F fs gos near with
+  | Some far => exists c no fo,
+      exen_split far (pile F near) (pile F far) = Some (c, no, fo) /\
+      st = Active far /\ structural t = nested_order F c no fo
+  | None => st = Active near /\ structural t = []
+  end.
+Proof.
+  intros F fs gos near st t Hp Hn. destruct (pass_spec _ _ _ _ _ _ Hp) as [(Hc & _)|H]; [congruence|].
+  destruct (chosen F fs gos near) as [far|].
+  - destruct H as (c & no & fo & scan & H1 & H2 & H3 & H4). exists c, no, fo. repeat split; auto.
+    subst t. rewrite !app_assoc. rewrite structural_app, structural_redo, app_nil_r.
+    rewrite <- !app_assoc. rewrite structural_app, H3. simpl. apply structural_nested.
+  - destruct H as (H1 & scan & H3 & H4). split; auto. subst t.
+    rewrite structural_app, H3, structural_redo. reflexivity.
+Qed.
+
+Lemma no_crash : forall F fs gos near,
+  (forall d, In d (candidates F gos near) -> exen_split d (pile F near) (pile F d) <> None) ->
+  fst (pass F fs gos near) <> Crashed.
+Proof.
+  intros F fs gos near H Hc. destruct (pass F fs gos near) as [st t] eqn:Hp. simpl in Hc. subst st.
+  destruct (pass_spec _ _ _ _ _ _ Hp) as [(_ & d & Hd & Hx)|Hs].
+  - exact (H d Hd Hx).
+  - destruct (chosen F fs gos near).
+    + destruct Hs as (? & ? & ? & ? & _ & Hs & _). discriminate.
+    + destruct Hs as (Hs & _). discriminate.
+Qed.
+
+(* start and end *)
+Lemma start_spec : forall F fs first,
+  let (t0, ok) := predo F fs (pile F first) in
+  start F fs first =
+    if ok then (Active first, t0 ++ endo F (pile F first) ++ redo F (pile F first)) else (Done false, t0).
+Proof. intros. unfold start. destruct (predo F fs (pile F first)) as [t ok]. destruct ok; reflexivity. Qed.
+
+Lemma start_structural : forall F fs first,
+  structural (snd (start F fs first)) =
+    if snd (predo F fs (pile F first)) then endo F (pile F first) else [].
+Proof.
+  intros. unfold start. pose proof (structural_predo F fs (pile F first)) as Hp.
+  destruct (predo F fs (pile F first)) as [t ok]. simpl in *. destruct ok; simpl; auto.
+  rewrite !structural_app, Hp, structural_endo, structural_redo, app_nil_r. reflexivity.
+Qed.
+
+(* every act list runs in declaration order *)
+Lemma acts_length : forall F k b, length (acts F k b) = cnt F k b.
+Proof. intros. unfold acts. now rewrite map_length, seq_length. Qed.
+
+Lemma acts_nth : forall F k b i d, i < cnt F k b -> nth i (acts F k b) d = Ev k b i.
+Proof.
+  intros F k b i d H. rewrite (nth_indep _ d (Ev k b 0)) by (now rewrite acts_length).
+  unfold acts. rewrite (map_nth (Ev k b) (seq 0 (cnt F k b)) 0 i). now rewrite seq_nth.
+Qed.
+
+(* ---- box trees: checked exhaustively for every forest of <= 6 boxes ---- *)
+Fixpoint nodupb (l : list nat) : bool :=
+  match l with [] => true | x :: l' => negb (existsb (Nat.eqb x) l') && nodupb l' end.
+Lemma nodupb_NoDup : forall l, nodupb l = true -> NoDup l.
+Proof.
+  induction l as [|x l IH]; simpl; intros H; constructor.
+  - apply andb_true_iff in H. destruct H as [H _]. apply negb_true_iff in H.
+    intro Hin. assert (existsb (Nat.eqb x) l = true) by (apply existsb_exists; exists x; split; auto; apply Nat.eqb_refl).
+    congruence.
+  - apply IH. apply andb_true_iff in H. tauto.
+Qed.
+Definition memb (x : nat) (l : list nat) : bool := existsb (Nat.eqb x) l.
+Definition disjointb (a b : list nat) : bool := forallb (fun x => negb (memb x b)) a.
+
+(* (near, far) in forest F: piles duplicate-free, exen finds a cut, retained
+   boxes are in neither of the other two parts, and either far is in the
+   active pile and both the exit part and the entry part start at far
+   (forced re-entry) or no box is both exited and entered *)
+Definition pair_ok (F : forest) (near far : nat) : bool :=
+  nodupb (pile F near) &&
+  match exen_split far (pile F near) (pile F far) with
+  | Some (c, no, fo) =>
+    disjointb c no && disjointb c fo &&
+    (if memb far (pile F near)
+     then match no, fo with n :: _, f :: _ => Nat.eqb n far && Nat.eqb f far | _, _ => false end
+     else disjointb no fo)
+  | None => false
+  end.
+Definition forest_ok (ov : list (option nat)) : bool :=
+  let F := forest_of ov [] in
+  forallb (fun near => forallb (pair_ok F near) (seq 0 (length ov))) (seq 0 (length ov)).
+Definition forests_le (n : nat) : list (list (option nat)) := flat_map all_overs (seq 0 (S n)).
+
+Lemma forests_le6_ok : forallb forest_ok (forests_le 6) = true.
+Proof. vm_compute. reflexivity. Qed.
+
+(* pile and exen do not look at the act lists *)
+Lemma ups_counts : forall ov un c1 c2 fuel b acc,
+  ups {| overs := ov; unders := un; counts := c1 |} fuel b acc =
+  ups {| overs := ov; unders := un; counts := c2 |} fuel b acc.
+Proof. induction fuel; intros; simpl; auto. unfold over; simpl. destruct (nth b ov None); auto. Qed.
+Lemma downs_counts : forall ov un c1 c2 fuel b,
+  downs {| overs := ov; unders := un; counts := c1 |} fuel b =
+  downs {| overs := ov; unders := un; counts := c2 |} fuel b.
+Proof. induction fuel; intros; simpl; auto. unfold under0; simpl. destruct (nth b un []); auto. now f_equal. Qed.
+Lemma pile_counts : forall ov un c1 c2 b,
+  pile {| overs := ov; unders := un; counts := c1 |} b = pile {| overs := ov; unders := un; counts := c2 |} b.
+Proof. intros. unfold pile, size; simpl. now rewrite (ups_counts ov un c1 c2), (downs_counts ov un c1 c2). Qed.
+
+Lemma forests_le6_pairs : forall ov cs near far,
+  In ov (forests_le 6) -> near < length ov -> far < length ov ->
+  pair_ok (forest_of ov cs) near far = true.
+Proof.
+  intros ov cs near far Hin Hn Hf.
+  pose proof forests_le6_ok as H. rewrite forallb_forall in H. specialize (H ov Hin).
+  unfold forest_ok in H. rewrite forallb_forall in H.
+  specialize (H near). rewrite in_seq in H. specialize (H ltac:(lia)).
+  rewrite forallb_forall in H. specialize (H far). rewrite in_seq in H. specialize (H ltac:(lia)).
+  unfold pair_ok in *. unfold forest_of in *.
+  rewrite (pile_counts ov (unders_of ov) _ (map (fun _ => []) ov) near).
+  rewrite (pile_counts ov (unders_of ov) _ (map (fun _ => []) ov) far).
+  exact H.
+Qed.
+
+Lemma memb_In : forall x l, memb x l = true <-> In x l.
+Proof.
+  intros. unfold memb. rewrite existsb_exists. split.
+  - intros (y & Hy & He). apply Nat.eqb_eq in He. now subst.
+  - intros H. exists x. split; auto. apply Nat.eqb_refl.
+Qed.
+Lemma disjointb_spec : forall a b, disjointb a b = true -> forall x, In x a -> ~ In x b.
+Proof.
+  intros a b H x Hx Hb. unfold disjointb in H. rewrite forallb_forall in H.
+  specialize (H x Hx). apply negb_true_iff in H. apply memb_In in Hb. congruence.
+Qed.
+
+Lemma pair_ok_spec : forall F near far, pair_ok F near far = true ->
+  NoDup (pile F near) /\
+  exists c no fo, exen_split far (pile F near) (pile F far) = Some (c, no, fo) /\
+    (forall x, In x c -> ~ In x no /\ ~ In x fo) /\
+    ((In far (pile F near) /\ hd_error no = Some far /\ hd_error fo = Some far) \/
+     (~ In far (pile F near) /\ forall x, In x no -> ~ In x fo)).
+Proof.
+  intros F near far H. unfold pair_ok in H. apply andb_true_iff in H. destruct H as [Hn H].
+  split; [now apply nodupb_NoDup|].
+  destruct (exen_split far (pile F near) (pile F far)) as [[[c no] fo]|]; [|discriminate].
+  exists c, no, fo. split; auto.
+  apply andb_true_iff in H. destruct H as [H H3]. apply andb_true_iff in H. destruct H as [H1 H2].
+  split.
+  - intros x Hx. split; [eapply disjointb_spec; eauto | eapply disjointb_spec; eauto].
+  - destruct (memb far (pile F near)) eqn:Em.
+    + left. split; [now apply memb_In|].
+      destruct no as [|n ?]; [discriminate|]. destruct fo as [|f ?]; [discriminate|].
+      apply andb_true_iff in H3. destruct H3 as [A B]. apply Nat.eqb_eq in A, B. subst. auto.
+    + right. split.
+      * intro Hin. apply memb_In in Hin. congruence.
+      * now apply disjointb_spec.
+Qed.
+
+Lemma finish_once : forall F b x,
+  NoDup (pile F b) -> In x (pile F b) -> count_occ Nat.eq_dec (rev (pile F b)) x = 1.
+Proof.
+  intros F b x Hn Hx. apply NoDup_count_occ'.
+  - now apply NoDup_rev.
+  - now apply in_rev in Hx.
+Qed.
+
+Lemma chosen_none : forall F fs gos near,
+  chosen F fs gos near = None <->
+  forall d, In d (candidates F gos near) -> admissible F fs near d = false.
+Proof.
+  intros. unfold chosen. split.
+  - intros H d Hd. eapply find_none; eauto.
+  - intros H. destruct (find (admissible F fs near) (candidates F gos near)) as [d|] eqn:Ef; auto.
+    apply find_some in Ef. destruct Ef as [Hd Ha]. rewrite (H d Hd) in Ha. discriminate.
+Qed.
